@@ -1,19 +1,171 @@
-(* C05 driver, stage 1: token stream correspondence *)
+(* C05 driver.  One harness line per case:
+     (c05 class "input" L F (toks (k s e ls cs le ce)...) (lim v depth fields) (parse v) (dump "sexp")
+          (rt c (p1 "..") (acc v) (dump2 "..") (p2 "..")) (rt i ...))
+   Correspondence (model vs implementation): token stream, limits verdict + stats, accept/reject, tree,
+   compact and indented print.  Spec checkers (extracted from Coq) on the implementation's OWN outputs:
+   token ranges inside the input and increasing, no panic, references inside the input, limits
+   soundness against the real depth / field count of the dumped tree, print/parse round trip. *)
+
+let b2s = string_of_bytes
+let q b = quote_string (b2s b)
+
+(* ---- model tree -> dump format of harness/gqldump ---- *)
+let rec show_ty = function
+  | TNamed n -> "(named " ^ q n ^ ")"
+  | TList t -> "(list " ^ show_ty t ^ ")"
+  | TNonNull t -> "(nn " ^ show_ty t ^ ")"
+let rec show_value = function
+  | VVar n -> "(var " ^ q n ^ ")"
+  | VInt r -> "(int " ^ q r ^ ")"
+  | VFloat r -> "(float " ^ q r ^ ")"
+  | VStr (r, blk) -> "(str " ^ q r ^ (if blk then " t)" else " f)")
+  | VBool b -> if b then "(bool t)" else "(bool f)"
+  | VNull -> "(null)"
+  | VEnum n -> "(enum " ^ q n ^ ")"
+  | VList l -> "(list" ^ String.concat "" (List.map (fun v -> " " ^ show_value v) l) ^ ")"
+  | VObj l -> "(obj" ^ String.concat "" (List.map (fun (k, v) -> " (" ^ q k ^ " " ^ show_value v ^ ")") l) ^ ")"
+let show_args l = "(" ^ String.concat " " (List.map (fun (k, v) -> "(" ^ q k ^ " " ^ show_value v ^ ")") l) ^ ")"
+let show_dirs l = "(" ^ String.concat " " (List.map (fun d -> "(d " ^ q d.d_name ^ " " ^ show_args d.d_args ^ ")") l) ^ ")"
+let show_opt = function None -> "(none)" | Some n -> "(some " ^ q n ^ ")"
+let rec show_sel = function
+  | SField (al, n, args, dirs, sels) ->
+    "(f " ^ show_opt al ^ " " ^ q n ^ " " ^ show_args args ^ " " ^ show_dirs dirs ^ " " ^ show_sels sels ^ ")"
+  | SInline (tc, dirs, sels) -> "(i " ^ show_opt tc ^ " " ^ show_dirs dirs ^ " " ^ show_sels sels ^ ")"
+  | SSpread (n, dirs) -> "(sp " ^ q n ^ " " ^ show_dirs dirs ^ ")"
+and show_sels l = "(" ^ String.concat " " (List.map show_sel l) ^ ")"
+let show_vd v =
+  "(vd " ^ q v.vd_name ^ " " ^ show_ty v.vd_type ^ " "
+  ^ (match v.vd_default with None -> "(none)" | Some d -> "(some " ^ show_value d ^ ")") ^ " " ^ show_dirs v.vd_dirs ^ ")"
+let show_def = function
+  | DOp o ->
+    "(op " ^ (match o.op_kind with OpQuery -> "query" | OpMutation -> "mutation" | OpSubscription -> "subscription")
+    ^ " " ^ show_opt o.op_name ^ " (" ^ String.concat " " (List.map show_vd o.op_vars) ^ ") " ^ show_dirs o.op_dirs
+    ^ " " ^ show_sels o.op_sels ^ ")"
+  | DFrag f -> "(frag " ^ q f.fr_name ^ " " ^ q f.fr_type ^ " " ^ show_dirs f.fr_dirs ^ " " ^ show_sels f.fr_sels ^ ")"
+let show_doc d = "(doc" ^ String.concat "" (List.map (fun x -> " " ^ show_def x) d) ^ ")"
+
+(* ---- implementation dump -> Coq tree (for the limit spec; non-executable definitions are skipped,
+        descriptions dropped) ---- *)
+exception Not_exec
+let rec ty_of = function
+  | L [A "named"; S n] -> TNamed (bytes_of_string n)
+  | L [A "list"; t] -> TList (ty_of t)
+  | L [A "nn"; t] -> TNonNull (ty_of t)
+  | x -> raise (Sexp_error ("type: " ^ print_sexp x))
+let rec value_of = function
+  | L [A "var"; S n] -> VVar (bytes_of_string n)
+  | L [A "int"; S n] -> VInt (bytes_of_string n)
+  | L [A "float"; S n] -> VFloat (bytes_of_string n)
+  | L [A "str"; S n; A b] -> VStr (bytes_of_string n, b = "t")
+  | L [A "bool"; A b] -> VBool (b = "t")
+  | L [A "null"] -> VNull
+  | L [A "enum"; S n] -> VEnum (bytes_of_string n)
+  | L (A "list" :: vs) -> VList (List.map value_of vs)
+  | L (A "obj" :: fs) -> VObj (List.map (function L [S k; v] -> (bytes_of_string k, value_of v) | x -> raise (Sexp_error "objfield")) fs)
+  | x -> raise (Sexp_error ("value: " ^ print_sexp x))
+let args_of x = List.map (function L [S k; v] -> (bytes_of_string k, value_of v) | _ -> raise (Sexp_error "arg")) (lst x)
+let dirs_of x = List.map (function L [A "d"; S n; a] -> { d_name = bytes_of_string n; d_args = args_of a } | _ -> raise (Sexp_error "dir")) (lst x)
+let opt_of = function L [A "none"] -> None | L [A "some"; S n] -> Some (bytes_of_string n) | _ -> raise (Sexp_error "opt")
+let rec sel_of = function
+  | L [A "f"; al; S n; args; dirs; sels] -> SField (opt_of al, bytes_of_string n, args_of args, dirs_of dirs, List.map sel_of (lst sels))
+  | L [A "i"; tc; dirs; sels] -> SInline (opt_of tc, dirs_of dirs, List.map sel_of (lst sels))
+  | L [A "sp"; S n; dirs] -> SSpread (bytes_of_string n, dirs_of dirs)
+  | x -> raise (Sexp_error ("sel: " ^ print_sexp x))
+let rec vd_of = function
+  | L [A "described"; _; v] -> vd_of v
+  | L [A "vd"; S n; t; dv; dirs] ->
+    { vd_name = bytes_of_string n; vd_type = ty_of t;
+      vd_default = (match dv with L [A "none"] -> None | L [A "some"; v] -> Some (value_of v) | _ -> raise (Sexp_error "default"));
+      vd_dirs = dirs_of dirs }
+  | x -> raise (Sexp_error ("vardef: " ^ print_sexp x))
+let rec def_of = function
+  | L [A "described"; _; d] -> def_of d
+  | L [A "op"; A k; nm; vds; dirs; sels] ->
+    Some (DOp { op_kind = (match k with "mutation" -> OpMutation | "subscription" -> OpSubscription | _ -> OpQuery);
+                op_name = opt_of nm; op_vars = List.map vd_of (lst vds); op_dirs = dirs_of dirs; op_sels = List.map sel_of (lst sels) })
+  | L [A "frag"; S n; S t; dirs; sels] ->
+    Some (DFrag { fr_name = bytes_of_string n; fr_type = bytes_of_string t; fr_dirs = dirs_of dirs; fr_sels = List.map sel_of (lst sels) })
+  | _ -> None
+let doc_of = function
+  | L (A "doc" :: defs) -> List.filter_map def_of defs
+  | x -> raise (Sexp_error ("doc: " ^ print_sexp x))
+
+let contains s sub =
+  let n = String.length s and m = String.length sub in
+  let rec go i = i + m <= n && (String.sub s i m = sub || go (i + 1)) in go 0
+
 let show_tok (t : token) =
   Printf.sprintf "(%s %s %s %s %s %s %s)" (decimal_of_n (kind_code t.t_kind)) (decimal_of_n t.t_start) (decimal_of_n t.t_end)
     (decimal_of_n t.t_ls) (decimal_of_n t.t_cs) (decimal_of_n t.t_le) (decimal_of_n t.t_ce)
 
+let show_verdict = function LOk -> "ok" | LDepth -> "depth" | LFields -> "fields"
+
 let handle (x : sexp) : (string * string) list =
   match x with
-  | L (A "c05" :: A cls :: S input :: A l :: A f :: toks :: _) ->
+  | L [A "c05"; A cls; S input; A l; A f; toks; lim; L [A "parse"; A pv]; L [A "dump"; S dump1]; rtc; rti] ->
     let b = bytes_of_string input in
+    let lz = z_of_decimal l and fz = z_of_decimal f in
     let res = ref [] in
+    let add st d = res := (st, d) :: !res in
+    (* ---------------- tokens *)
     let m_toks = match tokenize b with
       | None -> "(toks outoffuel)"
-      | Some ts -> print_sexp (L (A "toks" :: List.map (fun t -> parse_sexp (show_tok t)) ts)) in
+      | Some ts -> "(toks" ^ String.concat "" (List.map (fun t -> " " ^ show_tok t) ts) ^ ")" in
     let i_toks = print_sexp toks in
-    if m_toks <> i_toks then res := ("mismatch", Printf.sprintf "corr:C05/tokens impl=%s model=%s" i_toks m_toks) :: !res;
-    if !res = [] then [("ok", "nt")] else List.rev !res
+    if m_toks <> i_toks then add "mismatch" (Printf.sprintf "corr:C05/tokens impl=%s model=%s" i_toks m_toks);
+    let tok_items = match toks with L (A "toks" :: items) -> Some items | _ -> None in
+    (match tok_items with
+     | Some items when (match items with A _ :: _ -> false | _ -> true) ->
+       let ranges = List.map (function L (_ :: A s :: A e :: _) -> (n_of_decimal s, n_of_decimal e) | _ -> raise (Sexp_error "tok")) items in
+       if not (ranges_ok_b (n_of_int (String.length input)) N0 ranges) then add "specfail" ("tokens_in_range " ^ i_toks)
+     | _ -> add "specfail" ("total: lexer " ^ i_toks));
+    (* ---------------- limits *)
+    let i_lim = print_sexp lim in
+    let m_lim = match tokenize_limits true lz fz b with
+      | None -> "(lim outoffuel)"
+      | Some ((v, d), fl) -> Printf.sprintf "(lim %s %s %s)" (show_verdict v) (decimal_of_z d) (decimal_of_z fl) in
+    if i_lim <> m_lim then add "mismatch" (Printf.sprintf "corr:C05/limits impl=%s model=%s" i_lim m_lim);
+    let lim_accepted = (match lim with L (A "lim" :: A "ok" :: _) -> true | _ -> false) in
+    (match lim with L (A "lim" :: A "panic" :: _) -> add "specfail" "total: ParseWithLimits panicked" | _ -> ());
+    (* ---------------- parse, tree, print *)
+    if pv = "panic" then add "specfail" "total: Parse panicked";
+    let rt_p1 = function L [A "rt"; _; L [A "p1"; S p]; _; _; _] -> p | _ -> raise (Sexp_error "rt") in
+    (match parse_bytes b with
+     | Unsup -> ()
+     | Oof -> add "mismatch" "corr:C05/parse model out of fuel"
+     | Err -> if pv = "ok" then add "mismatch" "corr:C05/accept impl=ok model=err"
+     | Ok (d, _) ->
+       if pv <> "ok" then add "mismatch" ("corr:C05/accept impl=" ^ pv ^ " model=ok")
+       else begin
+         let md = print_sexp (parse_sexp (show_doc d)) and idmp = print_sexp (parse_sexp dump1) in
+         if md <> idmp then add "mismatch" (Printf.sprintf "corr:C05/tree impl=%s model=%s" idmp md);
+         let mc = b2s (print_doc None d) and mi = b2s (print_doc (Some (bytes_of_string "  ")) d) in
+         if mc <> rt_p1 rtc then add "mismatch" (Printf.sprintf "corr:C05/print-compact impl=%s model=%s" (quote_string (rt_p1 rtc)) (quote_string mc));
+         if mi <> rt_p1 rti then add "mismatch" (Printf.sprintf "corr:C05/print-indent impl=%s model=%s" (quote_string (rt_p1 rti)) (quote_string mi))
+       end);
+    (* ---------------- specs on the implementation's outputs *)
+    if pv = "ok" then begin
+      if contains dump1 "(bad" || contains dump1 "(dumppanic" then add "specfail" ("refs_in_input " ^ dump1);
+      (* limits soundness against the real depth / fields of the dumped tree *)
+      let d_impl = doc_of (parse_sexp dump1) in
+      if not (limits_ok_b lz fz d_impl lim_accepted) then
+        add "specfail" (Printf.sprintf "limits_sound L=%s F=%s real_depth=%s real_fields=%s impl=%s" l f
+                          (decimal_of_z (doc_depth d_impl)) (decimal_of_z (doc_fields d_impl)) i_lim);
+      (* round trip, compact and indented *)
+      List.iter (fun rt ->
+        match rt with
+        | L [A "rt"; A tag; L [A "p1"; S p1]; L [A "acc"; A acc]; L [A "dump2"; S dump2]; L [A "p2"; S p2]] ->
+          if acc = "panic" || acc = "printpanic" then add "specfail" ("total: print/re-parse panicked (" ^ tag ^ ")")
+          else if not (roundtrip_ok_b (acc = "ok") (bytes_of_string dump1) (bytes_of_string dump2) (bytes_of_string p1) (bytes_of_string p2)) then
+            add "specfail" (Printf.sprintf "roundtrip/%s acc=%s dump_equal=%b print_equal=%b p1=%s p2=%s" tag acc (dump1 = dump2) (p1 = p2)
+                              (quote_string p1) (quote_string p2))
+        | _ -> raise (Sexp_error "rt")) [rtc; rti]
+    end;
+    let ntoks = match tok_items with Some items -> List.length items | None -> 0 in
+    let has_lit = match tok_items with
+      | Some items -> List.exists (function L (A k :: _) -> k = "20" || k = "21" || k = "22" || k = "23" | _ -> false) items
+      | None -> false in
+    if !res = [] then [("ok", if ntoks >= 5 || has_lit then "nt" else "tr")] else List.rev !res
   | _ -> [("error", "unrecognised case")]
 
 let () = run_lines Sys.argv.(1) Sys.argv.(2) handle
